@@ -287,7 +287,7 @@ func init() {
 		ModelFn:  "C15_wmodel",
 		Rule: "fault enumeration: for each table (8 fixed shapes covering header, delimiter row, body, padding columns, separators in every position, zero-cell rows, multi-line cells, no header, empty header; plus random tables) x 15 targets " +
 			"(csv/json/markdown/html/texttable in 4 decorations incl. boxless, through the wrapper method, the package-level RenderTo and auto.RenderTo) the fault-free run is recorded as its list of Write payloads, then RenderTo runs against a scripted writer for EVERY call index k in 0..#writes (the last one is past the end: no fault) " +
-			"x 4 modes (fails from k on; fails only at k; partial write of half the payload + error at k then keeps failing; partial only at k); a case is one (table, target) with all its scripted runs; non-trivial when the fault-free render succeeds and makes at least one write; tables whose fault-free render errs or panics are counted and skipped (that is C09's concern)",
+			"x 4 modes (fails from k on; fails only at k; partial write of half the payload + error at k then keeps failing; partial only at k); the destination offers Write only, or also WriteString, or also WriteString/WriteByte/ReadFrom (all behind the same script), and fails with one of 8 error values (plain, self-described temporary / timeout, wrapped EAGAIN, io.ErrShortWrite, io.EOF, *os.PathError{ENOSPC}, EINTR), rotated over the cases; a case is one (table, target) with all its scripted runs; non-trivial when the fault-free render succeeds and makes at least one write; tables whose fault-free render errs or panics are counted and skipped (that is C09's concern)",
 		Exhaustive: "every write index x 4 fault modes for every (table, target) of the run",
 		Gen: func(r *RNG, tier string) []json.RawMessage {
 			n := 6
